@@ -276,6 +276,8 @@ def oracle(case, tr: C.Trace) -> tuple[list[Violation], dict]:
                     cause = "not-cancelled"
                 elif any(fp < max(began) for fp, _ in it.fin):
                     cause = "restarted-after-cancel"        # the id had a life before (by-name cancellation + stale request)
+                elif P is not None and any(rid == it.id for _n, rid in P.reqs):
+                    cause = "pending-request-started-after-cancel"   # request listed before the Stop's tick, not yet started
                 else:
                     cause = "started-after-cancel:%s" % delivery   # first started after the Stop/Restart cancelled everything
                 viol("finalize:missing-at-run-end:%s" % cause,
